@@ -81,6 +81,9 @@ func (g *Gen) nlvShape(shape string) vocab.NaturalLanguageValues {
 			out = append(out, vocab.LangRefValue{Ref: t, Value: g.Text()})
 		}
 		return out
+	case "nlv-mixed":
+		// an untagged text next to tagged ones (a document that gives both the plain term and the Map term)
+		return vocab.NaturalLanguageValues{{Ref: vocab.NilLangRef, Value: g.Text()}, {Ref: "en", Value: g.Text()}, {Ref: "fr", Value: g.Text()}}
 	case "nlv-long-text":
 		return vocab.NaturalLanguageValues{{Ref: vocab.NilLangRef, Value: vocab.Content(strings.Repeat(string(g.Text())+" ", 400))}}
 	case "nlv-empty":
@@ -263,7 +266,7 @@ func FieldShapes(t reflect.Type, exact bool) []string {
 		}
 		return append(s, "l2", "l3", "l-empty", "l9", "l33", "l-hostroot")
 	case t == NlvT:
-		return []string{"nlv1u", "nlv1t", "nlv2", "nlv3", "nlv-empty", "nlv9", "nlv-long-text"}
+		return []string{"nlv1u", "nlv1t", "nlv2", "nlv3", "nlv-empty", "nlv9", "nlv-long-text", "nlv-mixed"}
 	case t == TimeT:
 		if exact {
 			return []string{"time-s", "time-ns", "time-z"}
@@ -291,7 +294,7 @@ func FieldShapes(t reflect.Type, exact bool) []string {
 		}
 		return append(s, "ep-all", "ep-obj")
 	case t.Kind() == reflect.Uint:
-		return []string{"uint-small", "uint-large"}
+		return []string{"uint-small", "uint-large", "uint-max"}
 	case t.Kind() == reflect.Int64:
 		return []string{"int-pos", "int-neg", "int-large"}
 	case t.Kind() == reflect.Float64:
@@ -381,7 +384,10 @@ func (g *Gen) SetShape(fv reflect.Value, t reflect.Type, shape string) {
 		}
 		fv.Set(reflect.ValueOf(e))
 	case t.Kind() == reflect.Uint:
-		if shape == "uint-large" {
+		if shape == "uint-max" {
+			// beyond what a signed 64-bit counter holds
+			fv.SetUint([]uint64{1 << 63, 1<<64 - 1, 1<<63 + 12345}[g.R.Intn(3)])
+		} else if shape == "uint-large" {
 			fv.SetUint(uint64(1<<31 + g.R.Intn(1<<30)))
 		} else {
 			fv.SetUint(uint64(1 + g.R.Intn(5000)))
